@@ -1,6 +1,6 @@
 SPECIFICATION Spec
 CONSTANTS NUris = 3
- NTexts = 3
+ NTexts = 5
  NProbes = 3
  MaxLen = 12
  MultiChange = TRUE
